@@ -156,15 +156,15 @@ def Sender.pollFlush (s : Sender) : String :=
   | .resetSent | .resetRcvd => "err:Reset"
 
 /-- Which ranges `Outgoing::try_load_data_into` may emit (the relation the implementation's choice is checked
-against).  `len = 0` is the FIN-only frame; in `DataSent` it may be repeated as long as the FIN is not
-acknowledged (the code does so after `may_loss_data` of an empty FIN frame: `BufMap` then holds a zero-length
-`Lost` run that is picked first, and `fin_state` is still `Lost` afterwards), and it MUST come when the FIN is
-marked lost (`finDue`). -/
+against).  `len = 0` is the FIN-only frame; in `DataSent` it may be repeated (the code does so after
+`may_loss_data` of an empty FIN frame: `BufMap` then holds a zero-length `Lost` run that `SendBuf::pick_up`
+returns first, whatever `fin_state` is — even `Rcvd`, when another FIN-bearing frame was acknowledged in
+between; `fin_state` is then left alone), and it MUST come when the FIN is marked lost (`finDue`). -/
 def Sender.pickOk (s : Sender) (off len : Nat) : Prop :=
   s.live = true ∧
   if len = 0 then
     off = s.written.length ∧ s.sentHi = s.written.length ∧
-      (if s.st = .dataSent then s.fin ≠ .rcvd else s.shutdown = true)
+      (if s.st = .dataSent then True else s.shutdown = true)
   else
     off + len ≤ s.written.length ∧ off + len ≤ s.maxData ∧
       (∀ k, k < len → (s.status (off + k)).pickable = true) ∧ off ≤ s.sentHi
@@ -203,7 +203,7 @@ def Sender.pick (s : Sender) (off len : Nat) : Sender × Frame :=
   let fin := s.pickFin off len
   let st' : SSt := if s.st = .dataSent then .dataSent else if fin then .dataSent else .sending
   let fin' : FinSt :=
-    if s.st = .dataSent then (if len = 0 then .sent else s.fin) else .sent
+    if s.st = .dataSent then (if len = 0 then (if s.fin = .rcvd then .rcvd else .sent) else s.fin) else .sent
   ({ s with st := st', fin := fin', status := setRange s.status off (off + len) (fun _ => .inflight),
             sentHi := max s.sentHi (off + len) },
    ⟨off, slice s.written off len, fin⟩)
